@@ -52,20 +52,6 @@ theorem quote_fails_iff_code (l : Lang) (s : Bytes) :
     (∃ e, quote l s = .error e) ↔ codeFails l s = true :=
   quote_fails_iff_codeFails l s
 
-theorem langIn_eq_of_ne_zero (l m : Nat) (hm : m = 2 ∨ m = 4) (h : l ≠ 0) :
-    langIn l m = (l == m) := by
-  unfold langIn
-  by_cases hle : l ≤ m
-  · rcases hm with hm | hm <;> subst hm
-    · have : l = 1 ∨ l = 2 := by omega
-      rcases this with rfl | rfl <;> decide
-    · have : l = 1 ∨ l = 2 ∨ l = 3 ∨ l = 4 := by omega
-      rcases this with rfl | rfl | rfl | rfl <;> decide
-  · have h1 : l &&& m ≤ m := Nat.and_le_right
-    have h2 : (l &&& m) ≠ l := by omega
-    have h3 : l ≠ m := by omega
-    rw [beq_eq_false_iff_ne.mpr h2, beq_eq_false_iff_ne.mpr h3]
-
 /-- The property's wording: with the variant understood as the rest of the package understands it
     (`resolve`: the zero value means Bash), Quote fails exactly on the strings the variant cannot
     represent.  **False of the code** for the legacy zero value — see `quote_fails_iff_zero`. -/
